@@ -2,6 +2,8 @@
 
 package kfake
 
+import "github.com/twmb/franz-go/pkg/kmsg"
+
 // This file exists only under the `verif` build tag. It exports thin shims
 // over unexported types for the external model-based verification harness;
 // it changes no behaviour.
@@ -12,4 +14,22 @@ type VerifPidWindow struct{ w pidwindow }
 // Push calls pidwindow.pushAndValidate.
 func (v *VerifPidWindow) Push(epoch int16, firstSeq, numRecs int32, baseOffset int64) (ok, dup bool, dupOffset int64) {
 	return v.w.pushAndValidate(epoch, firstSeq, numRecs, baseOffset)
+}
+
+// VerifACLs wraps clusterACLs (the ACL store and its authorization decisions).
+type VerifACLs struct{ a clusterACLs }
+
+// Add stores one ACL entry.
+func (v *VerifACLs) Add(principal, host string, rt kmsg.ACLResourceType, name string, pat kmsg.ACLResourcePatternType, op kmsg.ACLOperation, perm kmsg.ACLPermissionType) {
+	v.a.add(acl{principal: principal, host: host, resourceType: rt, resourceName: name, pattern: pat, operation: op, permission: perm})
+}
+
+// Allowed calls clusterACLs.allowed.
+func (v *VerifACLs) Allowed(principal, host, name string, rt kmsg.ACLResourceType, op kmsg.ACLOperation) bool {
+	return v.a.allowed(principal, host, name, rt, op)
+}
+
+// AnyAllowed calls clusterACLs.anyAllowed.
+func (v *VerifACLs) AnyAllowed(principal, host string, rt kmsg.ACLResourceType, op kmsg.ACLOperation) bool {
+	return v.a.anyAllowed(principal, host, rt, op)
 }
